@@ -494,11 +494,14 @@ pub fn run_check(prop: &'static PropDef, tier: Tier, seed: u64) -> i32 {
     if violations == 0 && cases > 0 {
         let per = cases.div_ceil(n as u64);
         let first_fail: Arc<Mutex<Option<(Vec<u16>, Failure)>>> = Arc::new(Mutex::new(None));
+        // only the first shard that fails shrinks; the others stop
+        let owner = Arc::new(std::sync::atomic::AtomicUsize::new(usize::MAX));
         let results: Vec<Ctx> = std::thread::scope(|s| {
             let hs: Vec<_> = (0..n)
                 .map(|shard| {
                     let stop = stop.clone();
                     let first_fail = first_fail.clone();
+                    let owner = owner.clone();
                     std::thread::Builder::new()
                         .stack_size(64 << 20)
                         .spawn_scoped(s, move || {
@@ -509,7 +512,9 @@ pub fn run_check(prop: &'static PropDef, tier: Tier, seed: u64) -> i32 {
                                 cases: per as u32,
                                 failure_persistence: None,
                                 rng_seed: RngSeed::Fixed(shard_seed),
-                                max_shrink_iters: 3000,
+                                max_shrink_iters: 1500,
+                                // wall clock bound on shrinking only: affects how small the counterexample gets, never the verdict
+                                max_shrink_time: 40_000,
                                 max_global_rejects: 10,
                                 ..Config::default()
                             };
@@ -529,6 +534,14 @@ pub fn run_check(prop: &'static PropDef, tier: Tier, seed: u64) -> i32 {
                                 match v {
                                     Ok(()) => Ok(()),
                                     Err(f) => {
+                                        if !g.frozen {
+                                            let me = owner.compare_exchange(usize::MAX, shard, Ordering::SeqCst, Ordering::SeqCst);
+                                            stop.store(true, Ordering::Relaxed);
+                                            if me.is_err() {
+                                                // another shard already owns the failure: do not shrink here
+                                                return Ok(());
+                                            }
+                                        }
                                         g.frozen = true;
                                         let d = f.detail.clone();
                                         *last.borrow_mut() = Some(f);
@@ -566,7 +579,8 @@ pub fn run_check(prop: &'static PropDef, tier: Tier, seed: u64) -> i32 {
         let ff = first_fail.lock().unwrap().take();
         if let Some((tape, f)) = ff {
             if f.harness_fault {
-                faults.push(f.detail.clone());
+                let p = write_replay(prop, Some(&tape), &f);
+                faults.push(format!("{} (tape saved as {})", f.detail, p.display()));
             } else {
                 violations += 1;
                 report_violation(prop, Some(&tape), &f);
